@@ -1044,20 +1044,53 @@ Proof.
     apply FrameM_bind; [apply FrameM_filter_choices|]. intros; apply FrameM_ret.
 Qed.
 
+(* the tokens between two markers are tokens of the content, so their positions are positions of the passage *)
+Lemma until_marker_incl l : incl (until_marker l) l.
+Proof.
+  induction l as [|t r IH]; [apply incl_refl|].
+  destruct t; simpl; try (apply incl_cons; [left; reflexivity|apply incl_tl; exact IH]).
+  intros x [].
+Qed.
+
+Lemma after_nth_marker_incl l : forall n r, after_nth_marker l n = Some r -> incl r l.
+Proof.
+  induction l as [|t rest IH]; intros n r H; simpl in H; [discriminate|].
+  destruct t; try (apply incl_tl; eapply IH; exact H).
+  destruct n; [inversion H; subst; apply incl_tl, incl_refl|apply incl_tl; eapply IH; exact H].
+Qed.
+
+Lemma content_choices_incl l l' x : incl l l' -> In x (content_choices l) -> In x (content_choices l').
+Proof.
+  unfold content_choices. intros Hi Hx. apply flatl_in in Hx. destruct Hx as (t & Ht & Hx).
+  apply flatl_in. exists t. split; [apply Hi; exact Ht|exact Hx].
+Qed.
+
+(* every choice offered after a join choice sits at a position of the passage that the walk visits: a passage-level
+   choice, or a choice in a branch / loop of the section text (which is part of the content) *)
 Lemma render_from_join_marker_offered pid idx s s' post :
   render_from_join_marker orc ctxkeys st pid idx s = (s', Ok post) ->
   o_pid post = pid /\ offered_ok st post.
 Proof.
   unfold render_from_join_marker. destruct (get_passage st pid) as [p|] eqn:Hp; [|discriminate].
-  intros H. apply bind_ok in H. destruct H as (s1 & toks & _ & H).
-  apply bind_ok in H. destruct H as (s2 & [[txt j] ds] & _ & H).
-  destruct (split_dirs ds) as [[? ?] ?].
+  intros H. apply bind_ok in H. destruct H as (s1 & toks & Ht & H).
+  assert (Hincl : incl toks (content p)).
+  { destruct (after_nth_marker (content p) idx) as [r|] eqn:Ea.
+    - apply ret_ok in Ht. destruct Ht as [_ ->].
+      eapply incl_tran; [apply until_marker_incl|eapply after_nth_marker_incl; exact Ea].
+    - destruct idx; [|discriminate]. apply ret_ok in Ht. destruct Ht as [_ ->]. apply until_marker_incl. }
+  apply bind_ok in H. destruct H as (s2 & [[txt j] ds] & Er & H).
+  destruct (split_dirs ds) as [[cds ins] rds] eqn:Es.
   apply bind_ok in H. destruct H as (s3 & chs & Ef & H).
   apply ret_ok in H. destruct H as [_ ->]. simpl. split; [reflexivity|].
+  destruct (render_content_positions orc ctxkeys toks _ _ _ _ _ Er) as [_ B].
   intros rc Hin. simpl in *. destruct (filter_choices_in _ _ _ _ _ _ _ Ef _ Hin) as (dt & fd & Hc).
-  apply in_map_iff in Hc. destruct Hc as (c & E & Hc). inversion E; subst.
-  apply filter_In in Hc. destruct Hc as [Hc _].
-  exists p, KChoice. split; [exact Hp|]. left. auto.
+  apply in_app_or in Hc. destruct Hc as [Hc|Hc].
+  - apply in_map_iff in Hc. destruct Hc as (c & E & Hc). inversion E; subst.
+    apply filter_In in Hc. destruct Hc as [Hc _].
+    exists p, KChoice. split; [exact Hp|]. left. auto.
+  - apply in_map_iff in Hc. destruct Hc as ([c t] & E & Hc). simpl in E. inversion E; subst.
+    apply (split_dirs_in _ _ _ _ _ _ Es) in Hc. destruct (B _ _ Hc) as [k Hk].
+    exists p, k. split; [exact Hp|]. right. eapply content_choices_incl; eauto.
 Qed.
 
 Lemma nav_entered_low l : Forall low_event l -> nav_entered l = [].
